@@ -370,3 +370,11 @@ def pmap_fresh(fn, items, workers=None):
     ctx = mp.get_context("fork")
     with ctx.Pool(workers, maxtasksperchild=1) as pool:
         return pool.map(fn, items, chunksize=1)
+
+
+def errstr(ex, head=220, tail=80):
+    """Exception text for evidence / judges: type, the beginning of the message (where the reason is) and its end."""
+    msg = " ".join(str(ex).split())
+    if len(msg) > head + tail + 5:
+        msg = msg[:head] + " … " + msg[-tail:]
+    return f"{type(ex).__name__}: {msg}"
